@@ -11,6 +11,9 @@ def main():
     if a.tier:
         os.environ["VERIF_TIER"] = a.tier
     from . import common
+    if a.replay:
+        # a replay run looks at one stored case: it must not replace the evidence of the last full run
+        common.EVID = os.path.join(common.WORK, "evidence_of_replays")
     from .framework import MachineryError
     try:
         from . import registry
